@@ -48,8 +48,8 @@ func (c01) Plan(tier string, seed uint64) []core.Case {
 	wsEvery := 5
 	tl := 5
 	if tier == "thorough" {
-		per = 12000
-		batch = 400
+		per = 60000
+		batch = 1000
 		wsEvery = 1
 		tl = 6
 	}
@@ -62,7 +62,7 @@ func (c01) Plan(tier string, seed uint64) []core.Case {
 	// mixed-kind streams through one transport (state carried across kinds)
 	nmix := 10
 	if tier == "thorough" {
-		nmix = 60
+		nmix = 300
 	}
 	for i := 0; i < nmix; i++ {
 		cases = append(cases, core.Case{ID: fmt.Sprintf("C01/mixed/%03d", i), Engine: "envelopes", Seed: core.Derive(seed, 99, uint64(i)).Uint64(), P: map[string]interface{}{"kind": -1, "lo": i * 200, "n": 200, "ws": i%3 == 0}, TimeoutS: 300})
@@ -322,8 +322,7 @@ func (p c01) envelopes(r *core.Result, c core.Case) {
 			r.Violate("C01/transport-not-equal/"+it.kind+"/"+fieldOf(where), fmt.Sprintf("%s: envelope #%d received through the tcp transport differs at %s; encoding %s; previous envelope on the same transport %s", it.tag, i, where, it.b, prev))
 		}
 	}
-	_ = tp.A.Close()
-	_ = tp.B.Close()
+	tp.Close()
 	// (4) through a real WebSocket transport
 	if c.Bool("ws") {
 		ws, err := rig.NewWSRaw(false)
